@@ -12,10 +12,10 @@ use crate::runner::Scenario;
 pub static SCENARIO: Scenario = Scenario {
     property: "C09",
     level: "fault_enumeration",
-    rule: "byzantine sender / torn delivery against all 24 entry points with valid keys. Enumerated completely: each of the 8 correct headers followed by base64url of every decoded length 0..=400 (zeros / ones / seeded random; without footer, with the expected footer, with a trailing dot); every string of 0..6 segments over {empty, valid b64, invalid b64, padded b64} and header+0..4 such segments; Key::<N>::try_from for N in {24,32,48,49,64} on every hex length 0..=200 plus non-hex text. Sampled: every proper prefix of authentic tokens of every protocol/layer, arbitrary Unicode strings, large inputs, channel-fault outputs. A case is non-trivial when the string is not an authentic token for the verifier; distinct = distinct abstract traces (sequence of (op kind, fault kind, protocol, layer, verdict class, clause)).",
+    rule: "byzantine sender / torn delivery against all 24 entry points with valid keys. Enumerated completely: each of the 8 correct headers followed by base64url of every decoded length 0..=400 (zeros / ones / seeded random; without footer, with the expected footer, with a trailing dot); every string of 0..6 segments over {empty, valid b64, invalid b64, padded b64} and header+0..4 such segments; Key::<N>::try_from for N in {24,32,48,49,64} on every hex length 0..=200 plus non-hex text. Authentic tokens whose exp/nbf/iat claims carry extreme or malformed values (year 0000/9999 with extreme offsets, leap seconds, impossible dates, 100 kB strings, 1e308, deeply nested JSON) parsed at extreme simulated instants. Sampled: every proper prefix of authentic tokens of every protocol/layer, arbitrary Unicode strings, large inputs, channel-fault outputs. A case is non-trivial when the string is not an authentic token for the verifier; distinct = distinct abstract traces (sequence of (op kind, fault kind, protocol, layer, verdict class, clause)).",
     runs: |t| match t {
-        Tier::Quick => 72 + 24 + 5 + 160 + 240,
-        Tier::Thorough => 72 + 24 + 5 + 4000 + 12000,
+        Tier::Quick => 72 + 24 + 5 + 24 + 160 + 240,
+        Tier::Thorough => 72 + 24 + 5 + 24 + 4000 + 12000,
     },
     gen,
     judge: |run, obs| oracle::judge("C09", run, obs),
@@ -140,12 +140,81 @@ fn gen(ctx: &GenCtx, i: u64) -> Option<Run> {
             rb.push(Op::KeyParse { n, text: t.to_string() });
             rb.push(Op::KeyParse { n, text: format!("{}{}", "ab".repeat(n - 1), t) });
         }
+        // strings whose BYTE length is exactly 2n but that contain multi-byte characters at every
+        // alignment (a parser that slices the text by byte offsets must not split a character)
+        for ch in ["é", "中", "😀"] {
+            for off in [0usize, 1, 2, 3, 2 * n - 5, 2 * n - 4] {
+                let l = ch.len();
+                if off + l > 2 * n {
+                    continue;
+                }
+                let text = format!("{}{}{}", "a".repeat(off), ch, "0".repeat(2 * n - off - l));
+                rb.push(Op::KeyParse { n, text });
+            }
+        }
         rb.push(Op::KeyParse { n, text: "00".repeat(n) });
         rb.push(Op::KeyParse { n, text: "0".repeat(2 * n + 1) });
         rb.push(Op::KeyParse { n, text: "0".repeat(100_000) });
         return Some(rb.finish());
     }
-    let i4 = i3 - 5;
+    let i3b = i3 - 5;
+    // ---- block C2: authentic tokens whose claims carry extreme / odd values (the text is attacker-
+    // chosen as far as the parser is concerned: an issuer with the key may write anything)
+    if i3b < 24 {
+        let proto = ALL_PROTOS[(i3b % 8) as usize];
+        let mut rb = RunBuilder::new("C09", "byzantine-issuer/extreme-claims", ctx.verif_seed, i);
+        let key = rb.key(key_for(proto, &mut r));
+        const TS: [&str; 26] = [
+            "9999-12-31T23:59:59Z", "9999-12-31T23:59:59-23:59", "9999-12-31T23:30:00-01:00", "9999-12-31T23:59:59.999999999-00:01",
+            "0000-01-01T00:00:00Z", "0000-01-01T00:00:00+23:59", "0001-01-01T00:00:00+00:01", "0000-01-01T00:00:00.000000001+00:01",
+            "2024-02-30T00:00:00Z", "2024-12-31T23:59:60Z", "2016-12-31T23:59:60Z", "2024-01-01T00:00:00.1234567890123456789Z",
+            "2024-01-01T00:00:00.Z", "+2024-01-01T00:00:00Z", "-2024-01-01T00:00:00Z", "10000-01-01T00:00:00Z", "2024-01-01T00:00:00+99:99",
+            "2024-01-01T00:00:00-00:00", "2024-13-01T00:00:00Z", "2024-00-00T00:00:00Z", "2024-01-01T24:00:00Z", "2024-01-01t00:00:00z",
+            "2024-01-01 00:00:00Z", "", "Z", "9999-12-31T23:59:59+00:00",
+        ];
+        let nows = [
+            gen_now(&mut r),
+            crate::civil::ns_from_ymd_hms(9999, 12, 31, 23, 59, 58, 0),
+            crate::civil::ns_from_ymd_hms(1, 1, 1, 0, 0, 0, 0),
+            0,
+            -1,
+        ];
+        let mut vs = vec![];
+        for layer in [Layer::Batteries, Layer::Generic] {
+            vs.push(rb.verifier(VerifierSpec { proto, layer, key, footer: None, assertion: None, default_validators: layer == Layer::Batteries, expect: vec![], expect_via_extend: false, validators: vec![], hash_seed: r.next() }));
+        }
+        for (k, ts) in TS.iter().enumerate() {
+            let member = ["exp", "nbf", "iat"][(k + i3b as usize / 8) % 3];
+            let mut o = serde_json::Map::new();
+            o.insert(member.to_string(), serde_json::json!(ts));
+            if r.chance(1, 3) {
+                o.insert("exp".to_string(), serde_json::json!(*r.pick(&TS)));
+                o.insert("nbf".to_string(), serde_json::json!(*r.pick(&TS)));
+            }
+            let out = rb.msg();
+            rb.push(Op::CoreIssue { proto, key, nonce_hex: if proto.is_local() { nonce_for(proto, &mut r) } else { String::new() }, payload: serde_json::Value::Object(o).to_string(), footer: None, assertion: None, out });
+            for v in &vs {
+                rb.deliver(out, *v, *r.pick(&nows));
+            }
+        }
+        // odd JSON shapes
+        let deep_arr = format!("{}{}", "[".repeat(200), "]".repeat(200));
+        let deep_obj = format!("{}1{}", "{\"a\":".repeat(150), "}".repeat(150));
+        let long_str = format!("{{\"exp\":\"{}\"}}", "9".repeat(100_000));
+        for p in [
+            "null", "[]", "\"x\"", "0", "{}", "{\"exp\":1e308}", "{\"exp\":-1e308}", "{\"exp\":18446744073709551616}", "{\"nbf\":-9223372036854775808}",
+            "{\"exp\":{\"exp\":{}}}", "{\"exp\":[[[[]]]]}", "{\"exp\":\"\\u0000\"}", "{\"exp\":\"\\ud800\"}", "{\"exp\":\"2024-01-01T00:00:00Z\",\"exp\":1}",
+            deep_arr.as_str(), deep_obj.as_str(), long_str.as_str(), "{\"exp\" \"x\"}", "{", "\u{feff}{}",
+        ] {
+            let out = rb.msg();
+            rb.push(Op::CoreIssue { proto, key, nonce_hex: if proto.is_local() { nonce_for(proto, &mut r) } else { String::new() }, payload: p.to_string(), footer: None, assertion: None, out });
+            for v in &vs {
+                rb.deliver(out, *v, nows[0]);
+            }
+        }
+        return Some(rb.finish());
+    }
+    let i4 = i3b - 24;
     let n_prefix = if ctx.tier == Tier::Quick { 160 } else { 4000 };
     // ---- block D: every proper prefix of an authentic token (torn delivery)
     if i4 < n_prefix {
